@@ -74,7 +74,7 @@ Definition cookie_of_off (o : N) : N := (o - reserved)%N.
 
 (* ---- the case record of a front-end history ------------------------------------- *)
 
-(* [fc_front]: "" (direct API), "fuse" or "nfs41".  [fc_proto]: what the
+(* [fc_front]: "" (direct API), "fuse", "nfs41" or "nfs40".  [fc_proto]: what the
    adapter could not canonicalise because the front end broke its own
    protocol (step, what): a Forget that does not balance the lookups
    handed out, reserved entries other than "." "..", an inode / file
